@@ -54,7 +54,7 @@ impl Scenario for C14 {
         "C14"
     }
     fn rule(&self) -> String {
-        "Direct drive of ConfirmSmoother (no threads, no clock: the simulator's scheduler is not involved, only its seeded choice stream and minimiser). Family 'valid': N<=12 tags from a random start tag (incl. near u64::MAX/2), each confirmed exactly once by a single or by a multiple covering what is then unconfirmed, any arrival order, any ack/nack mix, each returned iterator consumed for k items then dropped. Oracle: sequential reference model compared per process() call (emitted as soon as the prefix is complete, never before; outcome of the first covering confirmation). Family 'arbitrary': duplicate / stale / overlapping confirmations; safety half only (strictly consecutive, no duplicates, never a tag nobody confirmed). Non-trivial = history has >=1 out-of-order arrival and >=1 multiple; distinct = hash of the confirmation sequence.".to_string()
+        "Direct drive of ConfirmSmoother (no threads, no clock: the simulator's scheduler is not involved, only its seeded choice stream and minimiser). Family 'valid': N<=12 tags from a random start tag (incl. near u64::MAX/2), each confirmed exactly once by a single or by a multiple covering what is then unconfirmed, any arrival order, any ack/nack mix, each returned iterator consumed for k items then dropped. Oracle: sequential reference model compared per process() call (emitted as soon as the prefix is complete, never before; outcome of the first covering confirmation). Family 'valid-long': the same with up to 80 outstanding tags and, in one history out of eight, a start tag such that the window ends within 3 of u64::MAX. Family 'arbitrary': duplicate / stale / overlapping confirmations; safety half only (strictly consecutive, no duplicates, never a tag nobody confirmed). Non-trivial = history has >=1 out-of-order arrival and >=1 multiple; distinct = hash of the confirmation sequence.".to_string()
     }
     fn assumptions(&self) -> Vec<String> {
         vec!["public API only (ConfirmSmoother::process); the end-to-end path listener -> smoother is exercised by C13's scenario, not here".into()]
@@ -62,6 +62,8 @@ impl Scenario for C14 {
     fn plan(&self, thorough: bool, seed: u64) -> Vec<CaseSpec> {
         let mut v = plan_random("C14", "valid", seed, if thorough { 20_000_000 } else { 1_000_000 });
         v.extend(plan_random("C14", "arbitrary", seed, if thorough { 6_000_000 } else { 300_000 }));
+        // longer windows: up to 80 outstanding tags, a start tag right below the 64-bit boundary included
+        v.extend(plan_random("C14", "valid-long", seed, if thorough { 1_000_000 } else { 50_000 }));
         v
     }
     fn real_vs_stub(&self) -> serde_json::Value {
@@ -76,9 +78,11 @@ impl Scenario for C14 {
             2 => (u64::MAX / 2) - cs.choose("start_big", 100) as u64,
             _ => 1 + cs.choose("start_any", 1 << 30) as u64,
         };
-        let n = 1 + cs.choose("n_tags", 12) as u64;
+        let long = spec.family == "valid-long";
+        let n = 1 + cs.choose("n_tags", if long { 80 } else { 12 }) as u64;
+        let start = if long && cs.choose("start_near_max", 8) == 0 { u64::MAX - n - cs.choose("start_gap", 3) as u64 } else { start };
         let mut history: Vec<(bool, u64, bool, usize)> = Vec::new(); // ack, tag, multiple, consume_k
-        if spec.family == "valid" {
+        if spec.family == "valid" || spec.family == "valid-long" {
             let mut unconfirmed: Vec<u64> = (start..start + n).collect();
             while !unconfirmed.is_empty() {
                 let i = cs.choose("which", unconfirmed.len() as u32) as usize;
@@ -144,7 +148,7 @@ impl Scenario for C14 {
                         None => break,
                     }
                     taken += 1;
-                    if got.len() > 64 {
+                    if got.len() > 512 {
                         break;
                     }
                 }
@@ -154,7 +158,7 @@ impl Scenario for C14 {
                 break;
             }
             let got2: Vec<(bool, u64)> = got.iter().map(|g| (g.0, g.1)).collect();
-            if spec.family == "valid" {
+            if spec.family == "valid" || spec.family == "valid-long" {
                 // observed items must be a prefix of the model's output of this call (all of it if fully consumed)
                 let full = *k == usize::MAX;
                 let ok = if full { got2 == want } else { got2.len() <= want.len() && got2[..] == want[..got2.len()] && (got2.len() == (*k).min(want.len())) };
@@ -200,7 +204,7 @@ impl Scenario for C14 {
                 }
             }
         }
-        if spec.family == "valid" && rep.violations.is_empty() {
+        if (spec.family == "valid" || spec.family == "valid-long") && rep.violations.is_empty() {
             // everything confirmed: the concatenation is start..start+n
             let tags: Vec<u64> = all_out.iter().map(|x| x.1).collect();
             let want: Vec<u64> = (start..start + n).collect();
